@@ -180,7 +180,9 @@ pub fn wait_held(name: &'static str, timeout: Duration) -> bool {
     let deadline = Instant::now() + timeout;
     let mut g = c.gates.lock().unwrap_or_else(|e| e.into_inner());
     loop {
-        if g.get(name).map(|s| s.waiting > 0).unwrap_or(false) {
+        // a thread that has been granted a release token but has not woken up yet still counts
+        // in `waiting`: it is on its way out, not held
+        if g.get(name).map(|s| s.waiting > s.tokens).unwrap_or(false) {
             return true;
         }
         let now = Instant::now();
@@ -212,7 +214,7 @@ pub fn arrivals(name: &'static str) -> u64 {
 pub fn held(name: &'static str) -> u32 {
     let c = ctl();
     let g = c.gates.lock().unwrap_or_else(|e| e.into_inner());
-    g.get(name).map(|s| s.waiting).unwrap_or(0)
+    g.get(name).map(|s| s.waiting.saturating_sub(s.tokens)).unwrap_or(0)
 }
 
 /// Number of holds that gave up after [`HOLD_LIMIT`].
